@@ -293,6 +293,46 @@ Example add_b_example :
   = ([(8, 10, 15); (20, 20, 23)], [(10, 5); (20, 3)]).
 Proof. vm_compute. reflexivity. Qed.
 
+(* ---- header constraints ---- *)
+(* GENERATED: in block mode a pattern is disabled by the header constraints only
+   on the evidence of a block whose base is 0 and that does not start with the header *)
+Theorem header_disabled_needs_base0_block : forall file hdr bs,
+  existsb (hdr_evidence file hdr) bs = true ->
+  exists b, In b bs /\ fst b = 0 /\ hdr_unsatisfied file hdr b = true.
+Proof.
+  intros file hdr bs H. apply existsb_exists in H. destruct H as (b & Hb & E).
+  unfold hdr_evidence in E. change header_pruning_only_at_base_zero with true in E. cbv iota in E.
+  apply andb_true_iff in E. destruct E as [E U]. apply andb_true_iff in E. destruct E as [Z _].
+  exists b. split; [exact Hb|]. split; [apply N.eqb_eq; exact Z|exact U].
+Qed.
+
+Lemma live_blocks_all : forall file hdr bs, existsb (hdr_evidence file hdr) bs = false ->
+  live_blocks file hdr false bs = map (fun _ => true) bs.
+Proof.
+  intros file hdr bs. induction bs as [|b r IH]; intros H; [reflexivity|]. cbn [existsb] in H.
+  apply orb_false_iff in H. destruct H as [A B]. cbn [live_blocks map]. rewrite A. cbn. rewrite (IH B). reflexivity.
+Qed.
+
+(* when only blocks that contain the whole header are consulted, the evidence is sound:
+   the (consistent) data does not start with the header, so `$a at 0` cannot hold *)
+Theorem header_pruning_sound : header_pruning_requires_covering_block = true ->
+  forall file hdr b, header_pruning_only_at_base_zero = true -> hdr_evidence file hdr b = true ->
+    bytes_eqb (slice file 0 (N.of_nat (length hdr))) hdr = false.
+Proof.
+  intros C file hdr b Z E. unfold hdr_evidence in E. rewrite C, Z in E.
+  apply andb_true_iff in E. destruct E as [E U]. apply andb_true_iff in E. destruct E as [B L].
+  apply N.eqb_eq in B. unfold hdr_unsatisfied in U. rewrite L, B in U. cbn [andb] in U.
+  rewrite N.add_0_l in U. destruct (bytes_eqb (slice file 0 (N.of_nat (length hdr))) hdr); [discriminate U|reflexivity].
+Qed.
+
+(* ... and it is not sound when a shorter block is consulted too *)
+Theorem header_pruning_unsound_with_short_blocks : header_pruning_requires_covering_block = false ->
+  exists file hdr b, hdr_evidence file hdr b = true /\ bytes_eqb (slice file 0 (N.of_nat (length hdr))) hdr = true.
+Proof.
+  intros C. exists [77; 90; 32], [77; 90], (0, 1). unfold hdr_evidence. rewrite C.
+  change header_pruning_only_at_base_zero with true. split; reflexivity.
+Qed.
+
 Example blocks_example :
   let keep := fun a b : mtch => if m_len a <? m_len b then b else a in
   let scan_one := fun d : list N => match d with [1; 2; 3] => [(0, 2, 0); (1, 2, 0)] | [2; 3] => [(0, 2, 0)] | _ => [] end in
